@@ -587,6 +587,72 @@ static void engine_fault_impl(RunCtx& cx) {
                 cx.violation("C12", "C12/I08/blocks-written-counter-after-failed-write", "after the failed call ('" + first_exc_what + "') the exporter reports " + std::to_string(reported) +
                                                                                             " blocks written to this output, " + std::to_string(p.M.blocks_written) + " were");
         }
+        // Branch (one scenario in two, when the throwing call was a rotate_output that had already switched outputs): the application
+        // does not rotate again but carries on with the output the failing rotation opened — it is "already in use", as the library
+        // puts it. That output is an output like any other: what is written to it must make one complete, self-contained file.
+        if (p.plan.ops[first_exc_op].kind == ppl::O_ROTATE && (mix64(cx.seed, 4243) & 1)) {
+            std::string open_path;
+            unsigned open_writing = 0;
+            for (auto& kv : F.open_files) if (kv.second.writing) { open_writing++; open_path = kv.second.path; }
+            if (open_writing == 1 && open_path != fault_dest) {
+                cx.tag("continues-on-switched-output");
+                cx.ctr->add("probe.continued_on_output_opened_by_failing_rotation");
+                model::MBlock pending = p.M.cur;
+                size_t expect_items = pending.items() + 1;
+                gen::RecGen g(p.plan.sw, mix64(cx.seed, 4244));
+                CDNS::GenericQueryResponse rec = g.qr(p.cur_tps());
+                rec.asn = std::string("after-failed-rotation");
+                std::string why;
+                try {
+                    p.ex->buffer_qr(rec);
+                    if (p.ex->get_block_item_count() > 0) p.ex->write_block();   // (the buffer call may have flushed by itself)
+                    if (p.plan.sw.fd_output) p.ex->rotate_output(F.make_fd("recafter"), false); else p.ex->rotate_output(std::string("/sim/recafter"), false);
+                } catch (std::exception& e) { why = std::string("a call on the healthy output threw: ") + e.what(); }
+                std::string raw;
+                if (open_path.compare(0, 3, "fd:") == 0) { auto ino = F.fd_inode(open_path.substr(3)); raw = ino ? ino->data : ""; }
+                else {
+                    std::string fin = open_path.size() > 5 && open_path.compare(open_path.size() - 5, 5, ".part") == 0 ? open_path.substr(0, open_path.size() - 5) : open_path;
+                    raw = F.exists(fin) ? F.get(fin) : (F.exists(open_path) ? F.get(open_path) : "");
+                }
+                std::string plain, err;
+                bool dec = true;
+                if (why.empty()) {
+                    if (p.plan.sw.compression == 1) dec = model::gunzip_exact(raw, plain, err); else if (p.plan.sw.compression == 2) dec = model::unxz_exact(raw, plain, err); else plain = raw;
+                    if (!dec) why = "not one complete compressed stream: " + err;
+                }
+                if (why.empty()) {
+                    try {
+                        ref::RFile rf = ref::Interp::file(plain);
+                        size_t items = 0;
+                        for (auto& b : rf.blocks) items += b.qr.size() + b.mm.size() + b.aec.size();
+                        // (address events aggregate by key: count distinct entries the model holds)
+                        size_t want = pending.qr.size() + pending.mm.size() + pending.aec.size() + 1;
+                        (void)expect_items;
+                        if (items != want) why = "holds " + std::to_string(items) + " items, " + std::to_string(want) + " were buffered (the failed block's records and one more)";
+                    } catch (std::exception& e) { why = std::string("not a valid C-DNS file: ") + e.what(); }
+                }
+                if (why.empty()) {
+                    model::VFile vfr = model::view_bytes(plain);
+                    if (!vfr.opened) cx.violation("C09", "C09/I25/preamble-unreadable-in-output-after-write-fault", open_path + " (opened by the failing rotate_output, then used): " + vfr.error_type + ": " + vfr.error);
+                    cx.ctr->add("probe.output_opened_by_failing_rotation_valid");
+                } else {
+                    std::string d = "the output the failing rotate_output had switched to (" + open_path + ") was used further and closed: " + why;
+                    V("I16/output-opened-by-failing-rotation-invalid", d);
+                    cx.violation("C13", "C13/I12/output-after-write-fault-not-self-contained", d);
+                    cx.violation("C02", "C02/I02/output-after-write-fault-invalid", d);
+                    cx.violation("C09", "C09/I25/preamble-unreadable-in-output-after-write-fault", d);
+                    if (!p.plan.sw.fd_output) cx.violation("C15", "C15/I14/invalid-file-under-final-name", d);
+                    if (p.plan.sw.compression) cx.violation("C14", "C14/I13/compressed-output-after-write-fault-differs", d);
+                }
+                cx.log.ev("DESTROY");
+                try { p.ex.reset(); } catch (...) {}
+                F.close_all_leaked();
+                F.wfaults.clear();
+                F.watcher = nullptr; F.log = nullptr;
+                cx.state_key = std::string("continue") + (p.plan.sw.fd_output ? "d" : "n") + std::to_string(p.plan.sw.compression) + ",";
+                return;
+            }
+        }
         // (V2) rotation to a healthy destination returns normally within two attempts
         bool rotated = false;
         std::string rec_name;
